@@ -565,4 +565,12 @@ func init() {
 		Variant{Name: "shard key without separator (C09 view)", Property: "C09", File: adm,
 			Old: "\treturn fmt.Sprintf(\"%d:%d\", sd.ClusterID, sd.ShardID)\n", New: "\treturn fmt.Sprintf(\"%d%d\", sd.ClusterID, sd.ShardID)\n", Expect: "O9.7"},
 	)
+	addVariants(
+		Variant{Name: "benign: intra-proxy sendAck with a plain map index", Property: "C09", File: ipr, Benign: true,
+			Old: "\t\tif r, ok2 := ps.receivers[key]; ok2 && r != nil && r.streamClient != nil {\n", New: "\t\tif r := ps.receivers[key]; r != nil && r.streamClient != nil {\n"},
+		Variant{Name: "benign: same edit seen by C01", Property: "C01", File: ipr, Benign: true,
+			Old: "\t\tif r, ok2 := ps.receivers[key]; ok2 && r != nil && r.streamClient != nil {\n", New: "\t\tif r := ps.receivers[key]; r != nil && r.streamClient != nil {\n"},
+		Variant{Name: "benign: NodeMeta checks the logger first", Property: "C09", File: shm, Benign: true,
+			Old: "\tif sd.manager == nil || sd.manager.memberlistConfig == nil {\n\t\treturn nil\n\t}\n\t// Copy shard map under read lock", New: "\tif sd.manager == nil {\n\t\treturn nil\n\t}\n\tif sd.manager.memberlistConfig == nil {\n\t\treturn nil\n\t}\n\t// Copy shard map under read lock"},
+	)
 }
